@@ -73,7 +73,8 @@ Inductive tcase :=
      (rec_ : record) (aft : record) (aft_last : jv) (aft_hlt : Z) (writes : list jv)
 | DC (name display : string) (hashes : list string) (rec_ : record) (name' display' : string) (hashes' : list string)
 | SC (before rec_ after : record)
-| HC (ops : list op) (static ports slaves ports' slaves' : list string).
+| HC (ops : list op) (static ports slaves ports' slaves' : list string)
+| LC (name : string) (stored before after : list string).     (* permanently offline slave: slave_ports ids, remote ids before / after *)
 
 Definition mk_port id defs init cur last hlt w b i : port :=
   {| p_id := id; p_defs := defs; p_init := init; p_attrs := map canon_attr cur; p_value := last; p_hlt := hlt;
@@ -128,6 +129,7 @@ Definition ok_model (c : tcase) : bool :=
       str_list_eqb (h_live h) ports && str_list_eqb (h_slaves h) slaves
       && str_list_eqb (h_live (restart h)) ports' && str_list_eqb (h_slaves (restart h)) slaves'
       && str_list_eqb (st_vports h) (h_vports h) && str_list_eqb (st_slaves h) (h_slaves h)
+  | LC name stored _ after => str_list_eqb (load_ports name stored) after
   end.
 
 Definition ok_spec (c : tcase) : bool :=
@@ -138,6 +140,7 @@ Definition ok_spec (c : tcase) : bool :=
   | DC n d h _ n' d' h' => device_eqb (mk_device n d h) (mk_device n' d' h')
   | SC before _ after => same_rec (norm_slave_rec before) (norm_slave_rec after)
   | HC ops static ports slaves ports' slaves' => str_list_eqb ports ports' && str_list_eqb slaves slaves'
+  | LC _ _ before after => str_list_eqb before after
   end.
 
 Definition bad_model (cases : list tcase) : list nat := mismatches ok_model cases 0.
